@@ -103,6 +103,9 @@ type JPScript struct {
 	mu       sync.Mutex
 	Bindings map[common.Address]AspectBinding
 	Faults   map[int]string
+	// AspectAt makes the provider return these doubles at the n-th lookup
+	// (fault injection at one firing position with a real aspect).
+	AspectAt map[int][]AspectSpec
 	Lookups  int
 	Rec      *Recorder // lookup events are appended here (may be nil)
 
@@ -127,6 +130,13 @@ func NewJPScript(sc *Scenario, rec *Recorder) *JPScript {
 			s.Bindings[b.Contract] = b
 		}
 		for _, f := range sc.Faults {
+			if f.Aspect != nil {
+				if s.AspectAt == nil {
+					s.AspectAt = map[int][]AspectSpec{}
+				}
+				s.AspectAt[f.Lookup] = append(s.AspectAt[f.Lookup], *f.Aspect)
+				continue
+			}
 			s.Faults[f.Lookup] = f.Text
 		}
 	}
@@ -161,6 +171,13 @@ func (providerDouble) GetTxBondAspects(ctx context.Context, contract common.Addr
 	}
 	if txt, ok := s.Faults[n]; ok {
 		return nil, errors.New(txt)
+	}
+	if specs, ok := s.AspectAt[n]; ok {
+		var out []*atypes.AspectCode
+		for i, sp := range specs {
+			out = append(out, &atypes.AspectCode{AspectId: AspectID(contract, cut == atypes.POST_CONTRACT_CALL_METHOD, 100+i).Hex(), Version: 1, Code: AspectCode(sp)})
+		}
+		return out, nil
 	}
 	b, ok := s.Bindings[contract]
 	if !ok {
